@@ -220,3 +220,28 @@ class CrashProbe:
                 n += len(p.result.get('out', []))
         pr['survivor_outputs_checked'] = n
         pr['survivor_' + ('stopped' if any(p.stopped for p in w.parties) else 'not_stopped')] = 1
+
+
+from .families import fldfam  # noqa: E402
+
+
+@_register
+class C04(Spec):
+    check_id = 'C04'
+    family = 'fld'
+    title = 'secure finite-field arithmetic equals field arithmetic'
+    quick = {'runs': 2500, 'wall': 75}
+    thorough = {'runs': 400000, 'wall': 900}
+    expected_probes = ()
+
+    def make_case(self, seed, tier):
+        rng = random.Random(f'C04/{seed}')
+        cfg = sample_cfg(rng, tier)
+        prog = fldfam.gen(rng, cfg, tier, effects=rng.random() < 0.2, kf=(seed % 20 == 7))
+        return {'family': 'fld', 'cfg': cfg.to_json(), 'prog': prog, 'seed': seed,
+                'start_delays': sample_start_delays(rng, cfg.m)}
+
+    def sample(self, case, res):
+        s = Spec.sample(self, case, res)
+        s['field'] = case['prog']['type']
+        return s
